@@ -262,6 +262,15 @@ def gen_nest(seed, feats=None):
     budget = [rng.range(8, 40)]
     wrap = rng.choice(["fn", "fn", "fiber", "method", "script"])
     main = g.block(0, base_ctx(is_func=(wrap != "script")), budget, 2, 5)
+    if rng.chance(1.0 / 120):
+        # boundary sizes: a try block and a catch block that are each within the 16-bit jump/handler operands but whose
+        # sum is not, with a `return` (or a fault) inside the try block, called from a protected region of main
+        a, b = rng.choice([(20000, 20000), (30000, 3000), (3000, 31000), (16380, 16380), (32000, 700)])
+        fi = len(g.funcs)
+        body = [["try", [["pad", a], ["chk", g.site()], ["ret", g.id()]],
+                 [["evexc", g.id()], ["pad", b], ["chk", g.site()]], [["ev", g.id()]]]]
+        g.funcs.append({"how": "fn", "body": body, "mod": None})
+        main = [["try", [["call", fi, g.id()], ["chk", g.site()], ["throw", g.id(), "s"]], [["evexc", g.id()]], None]] + main
     funcs = [f if f is not None else {"how": "fn", "body": [], "mod": None} for f in g.funcs]
     return {"main": main, "funcs": funcs, "sites": g.sites, "whiles": g.whiles, "wrap": wrap, "nmods": g.nmods}
 
@@ -362,6 +371,9 @@ def render_all(ir):
             call = {"fn": "%sf%d()" % (q, fi), "lambda": "%sf%d()" % (q, fi), "method": "%sK%d.new().m()" % (q, fi),
                     "fiber": "Fiber.new(%sf%d).call()" % (q, fi)}[how]
             emit('print(("ev", %d, %s));' % (st[2], call), ind)
+        elif k == "pad":
+            # bytecode padding (each `nil;` is two bytes): sizes the try / catch blocks up to the 16-bit operand limits
+            emit(" ".join(["nil;"] * st[1]), ind)
         elif k == "setg":
             emit("gv = gv + 1;", ind)
         elif k == "evg":
@@ -645,6 +657,8 @@ def model(ir, tape, faults):
             probes.inc("captured_local_bumped")
             env["locals"][st[2]][0] += 1
             ev.append([num(st[1]), num(env["locals"][st[2]][0])])
+        elif k == "pad":
+            pass
         elif k == "setg":
             G[env["mod"]][0] += 1
         elif k == "evg":
